@@ -49,7 +49,8 @@ Ltac split_head :=
 Ltac unfold_prims :=
   unfold run_task_gen, run_task_py,
     get_running_loop, task_name, known_tasks, name_in, validate_params, task_signatures, task_hints, dependency_graphs,
-    broker_of, executor_of, propagate_exceptions, prepare_task, signatures_get, hints_get, hints_or_empty, graphs_get,
+    broker_of, executor_of, propagate_exceptions, prepared_handlers, handlers_get, func_object, original_func_or_self,
+    object_is, prepare_task, signatures_get, hints_get, hints_or_empty, graphs_get,
     parse_params, custom_dependency_context, broker_state, dependency_overrides, overrides_or_none, Context,
     context_entries, bctx_update, bctx_copy, async_ctx, clock_start, clock_elapsed, round2, empty_kwargs, msg_args,
     msg_kwargs, kwargs_update, resolve_kwargs, iscoroutinefunction, call_coroutine_function, run_sync_helper,
@@ -62,7 +63,7 @@ Ltac unfold_model :=
 Ltac simp :=
   cbn [run_fn_ret sbind bind lift next return_v raise_ ret raise emit emits try_else_on for_ fut_func has_exc
        is_NoResultError is_BaseException is_exception found_exception
-       dw_cf dw_tree dw_resolve_ok dw_body dw_async dw_timeout dw_known dw_validate dc_world dc_pe is_CancelledError
+       dw_cf dw_tree dw_resolve_ok dw_body dw_async dw_timeout dw_known dw_validate dw_prepared dw_obj dw_original dc_world dc_pe is_CancelledError
        propagate ack ackable has_mw save_ok
        app fst snd negb andb orb].
 Ltac finish_eq := repeat rewrite app_nil_r; repeat rewrite <- app_assoc; cbn [app]; reflexivity.
@@ -73,7 +74,7 @@ Ltac run_both :=
 Theorem run_task_src : forall w,
   run_task_gen w = (run_task_effs (dw_cf w) (dw_tree w) (resolution_of w), Ok (result_of w)).
 Proof.
-  intros [[prop ak akb mw sv] tree ok body async tmo known validate].
+  intros [[prop ak akb mw sv] tree ok body async tmo known validate prepared obj orig].
   unfold_prims. unfold_model. run_both.
 Qed.
 Print Assumptions run_task_src.
